@@ -46,6 +46,7 @@ fn main() {
                 }
             }
             println!("  {} words harvested from the tree's source: {:?}", l, v.srcdict);
+            println!("  {} multi-word expressions harvested from the tree's source: {:?}", l, v.phrases);
             println!("{}: {} ordinary words ({} everyday words kept), {} number words, {} linking words; dropped as number/linking/known: {:?}", l, v.fillers.len(), v.common.len(), v.number_words.len(), v.linking.len(), dropped);
         }
         return;
